@@ -87,6 +87,15 @@ func (s *Store) ubound(t *Term) uint64 {
 		}
 	case OpBvLShr:
 		v = s.ubound(t.args[0])
+	case OpBvMul:
+		// product of the operand bounds when it cannot wrap (only with the "termdiv" feature set, so
+		// that other checks keep the query shapes they were validated with)
+		if optTermDiv {
+			a, b := s.ubound(t.args[0]), s.ubound(t.args[1])
+			if hi, lo := bits.Mul64(a, b); hi == 0 && lo <= m {
+				v = lo
+			}
+		}
 	}
 	if v > m {
 		v = m
